@@ -79,7 +79,7 @@ def run(pid, tier, seed):
             problems.append({"mode": "bfs", "violated": r["violated"], "errors": r["errors"][:2], "tail": r["out"][-3000:], "hist": vlib.cex_hist(cex)})
         hists = vlib.hists_from_tlc(r["outfile"], True)
         os.remove(r["outfile"])
-        lim = 2500 if tier == "quick" else 8000
+        lim = 2500 if tier == "quick" else 5000
         if len(hists) > lim:
             rnd.shuffle(hists)
             hists = hists[:lim]
@@ -95,7 +95,7 @@ def run(pid, tier, seed):
         hists += vlib.hists_from_tlc(r2["outfile"], False)
         os.remove(r2["outfile"])
         scripts = []
-        reps = 4 if tier == "quick" else 8
+        reps = 4 if tier == "quick" else 6
         TIMED = [(0, 3), (2, 3), (2, 0)]   # (recovery timeout, switching delay) in virtual ms; histories with clock inputs run on the virtual clock
         # Tick is enabled in every live state of GCPME.tla and changes nothing there, so the exhaustive run (VIEW = mechanism state)
         # never extends a history through it: the timed variants of the exhaustive histories are derived here by inserting
